@@ -3,7 +3,7 @@ PROPERTY = 'C38'
 LEVEL = 'model_checking'
 CLAIM = ('Compact-block short ids (kernel 1 of the property): the real CBlockHeaderAndShortTxIDs::FillShortTxIDSelector hashes exactly serialized-header||nonce (88 bytes, BIP152 layout) and GetShortID equals the low 48 bits of '
          'SipHash-2-4 keyed with the first two little-endian words of that digest over the 32-byte wtxid, for all headers, nonces, digests and wtxids. SipHash-2-4 is established compositionally: the real SipHashState kernels '
-         '(initialisation, Compress2, Finalize4) equal the SipHash paper for every key/state/word (sipsteps); GetShortID equals their composition per the paper (shortid); CSipHasher (byte interface, Write(uint64_t)) equals an independent '
+         '(initialisation, Compress2, Finalize4) equal the SipHash paper for every key/state/word (sipsteps); GetShortID equals the real PresaltedSipHasher(key)(wtxid) truncated to 48 bits (shortid), which equals CSipHasher over 32 bytes (thorough); CSipHasher (byte interface, Write(uint64_t)) equals an independent '
          'byte-wise SipHash-2-4 for all messages of length <= 15 (17 thorough) split in two writes (siphash). NOT covered: PartiallyDownloadedBlock::InitData / FillBlock (mempool, shared_ptr transactions, unordered_map) and hence the '
          'reconstruction-or-failure statement of the property itself.')
 COMMON = dict(nofmt=True, timeout=300, diff_runs=16, backends=['default', 'cvc5', 'kissat'])
@@ -13,7 +13,7 @@ HARNESSES = [
       functions=['SipHashState::SipHashState(k0,k1)', 'SipHashState::Compress2', 'SipHashState::Finalize4', 'SipHashState::SipRound'], bounds='all keys, all 256-bit states, all message words', **COMMON),
     H('shortid', 'shortid.cpp', 'h_shortid', link=['blockencodings.cpp', 'crypto/siphash.cpp', 'uint256.cpp', 'primitives/block.cpp'], unwind=100,
       functions=['CBlockHeaderAndShortTxIDs::FillShortTxIDSelector', 'CBlockHeaderAndShortTxIDs::GetShortID', 'PresaltedSipHasher::operator()(uint256)', 'SipHashState::Compress2/Finalize4', 'CBlockHeader::Serialize'],
-      stubs=['CSHA256 replaced by a recording model with unconstrained digest (the SipHash key is therefore fully symbolic)'], bounds='all headers, nonces, digests (hence keys) and wtxids', **COMMON),
-    H('siphash', 'shortid.cpp', 'h_siphash', link=['crypto/siphash.cpp', 'uint256.cpp'], variants=ML([(0, 0), (7, 3), (8, 0), (9, 8), (15, 5)]), tvariants=ML([(0, 0), (1, 0), (7, 3), (8, 0), (8, 8), (9, 8), (15, 5), (16, 1), (17, 9)]), unwind=48,
-      functions=['CSipHasher::Write(span)', 'CSipHasher::Write(uint64_t)', 'CSipHasher::Finalize', 'PresaltedSipHasher'], bounds='message lengths 0..15 (thorough ..17) written in two pieces; keys and bytes symbolic (longer messages: 14+ ARX rounds on both sides did not finish within the budget; covered compositionally by sipsteps + shortid)', **COMMON),
+      stubs=['CSHA256 replaced by a recording model with unconstrained digest (the SipHash key is therefore fully symbolic)', 'assertion_fail (util/check.cpp) -> CBMC assertion', 'memory_cleanse -> no-op'], bounds='all headers, nonces, digests (hence keys) and wtxids', **COMMON),
+    H('siphash', 'shortid.cpp', 'h_siphash', link=['crypto/siphash.cpp', 'uint256.cpp'], **dict(COMMON, timeout=900), variants=ML([(0, 0), (7, 3), (8, 0), (9, 8), (15, 5)]), tvariants=ML([(0, 0), (1, 0), (7, 3), (8, 0), (8, 8), (9, 8), (15, 5), (16, 1), (17, 9)]) + [{'MLEN': 32, 'SPLIT': 16, 'NOREF': 1}, {'MLEN': 36, 'SPLIT': 32, 'NOREF': 1}], unwind=48,
+      functions=['CSipHasher::Write(span)', 'CSipHasher::Write(uint64_t)', 'CSipHasher::Finalize', 'PresaltedSipHasher'], bounds='message lengths 0..15 (thorough ..17) written in two pieces; thorough adds PresaltedSipHasher == CSipHasher at 32 and 36 bytes; keys and bytes symbolic'),
 ]
